@@ -279,10 +279,14 @@ func genesisPost(e *Engine, ev *RunEvidence) []Found {
 		wg.Add(1)
 		go func() {
 			defer wg.Done()
+			rig := NewRig(e.Sc.Rig) // a keeper of its own per worker
 			for id := range ch {
 				n := e.nodes[id]
 				if n.st == nil {
 					continue
+				}
+				if rig.Dirty() {
+					rig = NewRig(e.Sc.Rig)
 				}
 				r := exportPoint(rig, e.Sc, n.st, fresh)
 				mu.Lock()
